@@ -233,7 +233,16 @@ class Earley:
         x = tuple(x)
         c = self._chart.get(x)
         if c is None:
-            self._chart[x] = c = self._compute_chart(x)
+            # Extend the longest cached prefix one token at a time (iteratively,
+            # so that a cold query on a long context does not exhaust the
+            # interpreter's recursion limit).
+            k = len(x)
+            while k > 0 and x[:k] not in self._chart:
+                k -= 1
+            for n in range(k, len(x) + 1):
+                c = self._chart.get(x[:n])
+                if c is None:
+                    self._chart[x[:n]] = c = self._compute_chart(x[:n])
         return c
 
     def _compute_chart(self, x):
